@@ -302,24 +302,27 @@ func r013(c *Ctx, r *R) {
 // reaching the return without passing a commit call.
 func checkRetryResult(c *Ctx, r *R, f *ssa.Function, name string, commitPats ...string) {
 	idx := f.Signature.Results().Len() - 1
-	var commit *ssa.Call
-	for _, ci := range findCalls(f, false, commitPats...) {
-		if cc, ok := ci.(*ssa.Call); ok {
+	// the commit call, in f or in a helper extracted from f
+	var commit, outer *ssa.Call
+	for _, dc := range findCallsDeep(f, commitPats...) {
+		if cc, ok := dc.Inner.(*ssa.Call); ok {
 			commit = cc
+			outer, _ = dc.Outer.(*ssa.Call)
 		}
 	}
-	if commit == nil {
+	if commit == nil || outer == nil {
 		r.Bad(name+":commit-call", f.Pos(), "%s no longer calls %v", name, commitPats)
 		return
 	}
-	for _, lf := range returnLeaves(f, idx) {
+	isCommitErr := func(v ssa.Value) bool { cc, _ := originCallLocal(v); return cc == commit || cc == outer }
+	for _, lf := range returnLeavesDeep(f, idx) {
 		v := lf.Val
-		if call, i := originCall(v); call != nil {
+		if call, i := originCallLocal(v); call != nil {
 			cn := callName(call.Common())
 			switch {
 			case nameMatches(cn, "raft.Consensus).redirectToLeader") && i == 1:
 				r.OK(name+":returns-redirect-error", lf.Pos, "returns the redirect's error (nil = the leader accepted)")
-			case call == commit:
+			case call == commit || call == outer:
 				r.OK(name+":returns-commit-error", lf.Pos, "returns the commit call's error")
 			default:
 				r.Bad(name+":returns-other:"+cn, lf.Pos, "%s returns the result of %s, not of the commit or the redirect", name, cn)
@@ -327,23 +330,23 @@ func checkRetryResult(c *Ctx, r *R, f *ssa.Function, name string, commitPats ...
 			continue
 		}
 		if isNilConst(v) {
-			// acceptable only as the initial value: the block the nil
-			// comes from must not be reachable from the commit call
-			if lf.Block != commit.Block() && !blockReaches(commit.Block(), lf.Block) {
+			switch {
+			case len(lf.Via) == 0 && lf.Block != outer.Block() && !blockReaches(outer.Block(), lf.Block):
+				// acceptable as the initial value: the block the nil comes
+				// from is not reachable from the commit call
 				r.OK(name+":initial-nil", lf.Pos, "nil reaches the return only without any commit attempt (zero iterations; excluded by Validate)")
-			} else if lf.GuardedBy(func(g Guard) bool {
-				return gNil(g, false, func(v ssa.Value) bool { cc, _ := originCall(v); return cc == commit })
-			}) {
+			case lf.GuardedBy(func(g Guard) bool { return gNil(g, false, isCommitErr) }):
 				r.OK(name+":nil-under-commit-ok", lf.Pos, "the literal nil is returned only where the commit call's error was tested to be nil")
-			} else {
+			default:
 				r.Bad(name+":nil-after-commit", lf.Pos, "%s can return nil on a path after a commit attempt without that attempt's error being the result: a failed commit is acknowledged", name)
 			}
 			continue
 		}
 		r.Bad(name+":returns-unknown", lf.Pos, "%s returns %s, which is neither the commit's nor the redirect's error", name, v)
 	}
-	// the commit happens under the shared shutdown lock
-	held := lockHeldAt(commit, "shutdownLock")
+	// the commit happens under the shared shutdown lock (taken around the
+	// call itself, or around the helper that makes it)
+	held := lockHeldAt(commit, "shutdownLock") || lockHeldAt(outer, "shutdownLock")
 	r.Check(held, name+":commit-under-shutdownLock", commit.Pos(), "commit is performed with shutdownLock read-held", "commit is not performed under shutdownLock: Shutdown can close raft in the middle of it")
 }
 
